@@ -50,6 +50,27 @@ impl World {
         out
     }
 
+    /// Blocks a Byzantine peer can serve over block sync: every known commit certificate whose payload appears in some
+    /// proposal of the pool (its own crafted ones included), in block-number order, conflicting ones first.
+    pub fn servable_blocks(&self) -> Vec<validator::Block> {
+        let mut payloads: Vec<(bool, Payload)> = vec![];
+        for p in &self.pool {
+            if let v2::ChonkyMsg::LeaderProposal(x) = chonky(&p.msg) {
+                if let Some(pl) = &x.proposal_payload {
+                    payloads.push((p.crafted, pl.clone()));
+                }
+            }
+        }
+        let mut out: Vec<(u64, bool, validator::Block)> = vec![];
+        for q in self.known_commit_qcs() {
+            if let Some((crafted, pl)) = payloads.iter().find(|(_, pl)| pl.hash() == q.message.proposal.payload) {
+                out.push((q.message.proposal.number.0, !*crafted, validator::Block::FinalV2(v2::FinalBlock { payload: pl.clone(), justification: q.clone() })));
+            }
+        }
+        out.sort_by_key(|(n, honest, _)| (*n, *honest));
+        out.into_iter().map(|x| x.2).collect()
+    }
+
     pub fn known_timeout_qcs(&self) -> Vec<v2::TimeoutQC> {
         let mut out: Vec<v2::TimeoutQC> = vec![];
         for p in &self.pool {
@@ -156,6 +177,9 @@ impl World {
                 if signers.contains_key(b) {
                     continue;
                 }
+                // `lie % 5` selects the reported vote, `lie / 5` the reported certificate (0: as documented above, 1: none - the
+                // Byzantine validator keeps a certificate it knows to itself -, 2: the oldest one)
+                let (lie, qc_lie) = (lie % 5, (lie / 5) % 3);
                 let high_vote = match (lie, &top_vote) {
                     (0, _) | (_, None) => None,
                     (1, Some(v)) => Some(v2::ReplicaCommit { view: v.view, proposal: v2::BlockHeader { number: v.proposal.number, payload: Payload(vec![0xEE, *b as u8]).hash() } }),
@@ -163,9 +187,9 @@ impl World {
                     (4, Some(_)) => stalest_vote.clone(),
                     (_, Some(v)) => Some(v2::ReplicaCommit { view: v.view, proposal: v2::BlockHeader { number: v.proposal.number.next(), payload: Payload(vec![0xEF]).hash() } }),
                 };
-                let high_qc = match lie {
-                    0 => None,
-                    1 => qcs.first().cloned(),
+                let high_qc = match (qc_lie, lie) {
+                    (1, _) | (0, 0) => None,
+                    (2, _) | (0, 1) => qcs.first().cloned(),
                     _ => qcs.last().cloned(),
                 };
                 let m = self.sign_as(*b, v2::ChonkyMsg::ReplicaTimeout(v2::ReplicaTimeout { view: self.committee.view(*view), high_vote, high_qc }));
